@@ -13,7 +13,7 @@ Local Open Scope N_scope.
    - when no block served from a large frame is live, exactly the slab reservations stay mapped. *)
 Theorem C03_map_unmap_protocol :
   forall (c : cfg) (ops : list op),
-    cfg_ok c = true -> policy_ok c ops -> api_ok c ops -> history_short ops ->
+    cfg_ok c = true -> policy_ok c ops -> api_ok c ops ->
     forall pre, prefix pre ops ->
     let s := run c pre in
     (exists m, proto [] (log c pre) = Some m /\ Permutation m (mapped s))
@@ -27,7 +27,7 @@ Print Assumptions C03_map_unmap_protocol.
 (* ... and at the moment of an unmap no block that stays live intersects the region given back. *)
 Theorem C03_unmap_never_under_live_block :
   forall (c : cfg) (ops : list op) (o : op),
-    cfg_ok c = true -> policy_ok c (ops ++ [o]) -> api_ok c (ops ++ [o]) -> history_short (ops ++ [o]) ->
+    cfg_ok c = true -> policy_ok c (ops ++ [o]) -> api_ok c (ops ++ [o]) ->
     let s := run c ops in
     forall b0 l0, In (CUnmap b0 l0) (cbs_of (step c s o)) ->
       forall b', In b' (live (st_of (step c s o))) -> disjoint (bk_p b') (bk_size0 b') b0 l0.
@@ -48,7 +48,7 @@ Print Assumptions C03_free_unmaps_only_mapped_partial.
    block is unpoisoned. *)
 Theorem C03_poison_live_requested_partial :
   forall (c : cfg) (ops : list op),
-    cfg_ok c = true -> poison c = true -> policy_ok c ops -> api_ok c ops -> history_short ops ->
+    cfg_ok c = true -> poison c = true -> policy_ok c ops -> api_ok c ops ->
     forall pre, prefix pre ops ->
     let s := run c pre in
     let sh := sh_fold sh0 (log c pre) in
@@ -71,7 +71,7 @@ Definition c03_ops : list op :=
   [Alloc 5000 (MapRet 20480); Alloc 24 (MapRet 65536); Alloc 9000 (MapRet 131072); Free 24576;
    Realloc 135168 20000 (MapRet 262144); Free 266240].
 Example C03_hyps_satisfiable :
-  cfg_ok c03_cfg = true /\ policy_ok c03_cfg c03_ops /\ api_ok c03_cfg c03_ops /\ history_short c03_ops
+  cfg_ok c03_cfg = true /\ policy_ok c03_cfg c03_ops /\ api_ok c03_cfg c03_ops
   /\ proto [] (log c03_cfg c03_ops) = Some [(65536, 8192)]
   /\ mapped (run c03_cfg c03_ops) = [(65536, 8192)]
   /\ used (run c03_cfg c03_ops) = 1
@@ -79,4 +79,4 @@ Example C03_hyps_satisfiable :
   /\ filter is_mu (log c03_cfg c03_ops) =
      [CMap 16384 0 20480; CMap 8192 0 65536; CMap 20480 0 131072; CUnmap 20480 16384;
       CMap 28672 0 262144; CUnmap 131072 20480; CUnmap 262144 28672].
-Proof. unfold policy_ok, api_ok, history_short. vm_compute. repeat split; reflexivity. Qed.
+Proof. unfold policy_ok, api_ok. vm_compute. repeat split; reflexivity. Qed.
